@@ -120,6 +120,44 @@ fn check_err_span(e: &darling_core::Error, m: &syn::Meta, what: &str, src: &str)
     Ok(())
 }
 
+/// The same item with its value inside `depth` nested invisible groups (`Expr::Group`, what `macro_rules!` forwarding of an
+/// `$e:expr` fragment through `depth` macros delivers).
+fn grouped(m: &syn::Meta, depth: usize) -> Option<syn::Meta> {
+    use syn::spanned::Spanned;
+    match m {
+        syn::Meta::NameValue(nv) => {
+            let mut nv = nv.clone();
+            for _ in 0..depth {
+                let sp = nv.value.span();
+                nv.value = syn::Expr::Group(syn::ExprGroup { attrs: vec![], group_token: syn::token::Group { span: sp }, expr: Box::new(nv.value) });
+            }
+            Some(syn::Meta::NameValue(nv))
+        }
+        _ => None,
+    }
+}
+
+/// Invisible groups at any depth around the value change nothing: same value, or an error in both spellings.
+fn check_grouped(plain: &Result<String, darling_core::Error>, m: &syn::Meta, conv: &dyn Fn(&syn::Meta) -> Result<String, darling_core::Error>, what: &str, src: &str) -> Result<(), Fail> {
+    for depth in 1..=3 {
+        let mg = match grouped(m, depth) {
+            Some(x) => x,
+            None => return Ok(()),
+        };
+        let got = match catch(|| conv(&mg)) {
+            Ok(r) => r,
+            Err(p) => fail!("c11:panic", "{}(`{}`, value inside {} invisible groups) panicked: {}", what, src, depth, p),
+        };
+        match (plain, &got) {
+            (Ok(a), Ok(b)) => ensure!(a == b, "c11:grouped-differs:value", "{}(`{}`) = {} but {} with the value inside {} invisible groups", what, src, a, b, depth),
+            (Err(_), Err(_)) => {}
+            (Ok(a), Err(e)) => fail!("c11:grouped-differs:rejected", "{}(`{}`) = {} but fails with `{}` when the value is inside {} invisible groups", what, src, a, e, depth),
+            (Err(e), Ok(b)) => fail!("c11:grouped-differs:accepted", "{}(`{}`) fails with `{}` but gives {} when the value is inside {} invisible groups", what, src, e, b, depth),
+        }
+    }
+    Ok(())
+}
+
 pub fn check_int(ctx: &Ctx, c: &IntCase, targets: &[(&'static str, Conv, Std)]) -> Result<(), Fail> {
     fresh_spans();
     let src = if c.quoted {
@@ -142,6 +180,7 @@ pub fn check_int(ctx: &Ctx, c: &IntCase, targets: &[(&'static str, Conv, Std)]) 
             Err(p) => fail!("c11:panic", "{}::from_meta(`{}`) panicked: {}", name, src, p),
         };
         let what = format!("{}::from_meta", name);
+        check_grouped(&got, &m, &|x| conv(x), &what, &src)?;
         match (&got, &want) {
             (Ok(g), Some(w)) => {
                 ensure!(
@@ -539,6 +578,7 @@ pub fn check_misc(ctx: &Ctx, c: &MiscCase) -> Result<(), Fail> {
         Err(p) => fail!("c11:panic", "{}::from_meta(`{}`) panicked: {}", c.target, c.src, p),
     };
     let what = format!("{}::from_meta", c.target);
+    check_grouped(&got, &m, &|x| conv_misc(&c.target, x), &what, &c.src)?;
     match (&got, &c.expect) {
         (Ok(g), Some(w)) => ensure!(g == w, format!("c11:wrong-value:{}", c.kind), "{}(`{}`) = {:?}, expected {:?}", what, c.src, g, w),
         (Ok(g), None) => {
